@@ -126,7 +126,7 @@ WEIRD_LINES = [
 
 
 def _fuzz_input(r) -> Tuple[bytes, str]:
-    kind = r.randrange(12)
+    kind = r.randrange(16)
     lines = _valid_lines(r, r.randint(0, 6))
     for _ in range(r.randint(0, 4)):
         lines.insert(r.randint(0, len(lines)), r.choice(WEIRD_LINES))
@@ -163,6 +163,17 @@ def _fuzz_input(r) -> Tuple[bytes, str]:
         return b'', 'empty'
     if kind == 10:
         return header + zlib.compress(b''), 'empty-payload'
+    if kind in (12, 13, 14, 15):
+        # "wrongly compressed": the payload in another container format, whole or cut short
+        import bz2
+        import gzip
+        import lzma
+        name, comp = r.choice([('gzip', gzip.compress), ('bz2', bz2.compress), ('lzma', lzma.compress), ('zlib-gzip-wrapper', lambda b: zlib.compressobj(wbits=31).compress(b) + zlib.compressobj(wbits=31).flush()),
+                               ('zlib-twice', lambda b: zlib.compress(zlib.compress(b)))])
+        z = comp(raw)
+        if kind >= 14:
+            return header + z[:r.randint(0, len(z))], f'truncated-{name}'
+        return header + z, name
     return header + zlib.compress(raw.replace(b' ', b'  ')), 'double-spaces'
 
 
@@ -194,7 +205,7 @@ def _run_FZ(case: Dict[str, Any], res: core.Res) -> None:
             if got != exp and not (order[-1][0] != 'http://good/objects.inv' and got is not None and _redefines(data, name)):
                 res.v('C17:other-inventory-affected', f'after loading a {kind} inventory, {name} resolves to {got!r} instead of {exp!r}', kind=kind, data_hex=data[:4000].hex())
         # unusable file-level payloads must be reported
-        if kind in ('not-compressed', 'random-bytes', 'raw-deflate') or (kind == 'invalid-utf8'):
+        if kind in ('not-compressed', 'random-bytes', 'raw-deflate', 'gzip', 'bz2', 'lzma', 'zlib-gzip-wrapper', 'truncated-gzip', 'truncated-bz2', 'truncated-lzma') or (kind == 'invalid-utf8'):
             if data and len(url_bad.rsplit('/', 1)) == 2 and not any(t < 0 for _, _, t in log) and not _decodes(data):
                 res.v('C17:unusable-payload-not-reported', f'{kind} payload produced no report', kind=kind, data_hex=data[:4000].hex())
     res.sample({'fuzz_kind': kind, 'bytes': data[:60].hex()})
